@@ -11,11 +11,13 @@ THEOREMS = [P + 'C09_partial', P + 'C09_plan_select', P + 'C09_add_step', P + 'C
             P + 'C09_join_unrepaired', P + 'C09_regress_unrepaired_plan', P + 'C09_regress_unrepaired_1',
             P + 'C09_regress_unrepaired_2', P + 'C09_regress_unrepaired_3', P + 'C09_regress_repaired_plan',
             P + 'C09_regress_repaired_1', P + 'C09_regress_repaired_3',
-            # round 5: catalog record shapes (Model/Catalog.lean)
-            P + 'C09_catalog', P + 'C09_catalog_total', P + 'C09_catalog_live', P + 'C09_integration',
-            P + 'C09_catalog_not_full_live', P + 'C09_witness_r5_1', P + 'C09_witness_r5_1b', P + 'C09_witness_r5_1c',
-            P + 'C09_witness_r5_1d', P + 'C09_witness_r5_2', P + 'C09_witness_r5_3', P + 'C09_witness_r5_3b',
-            P + 'C09_witness_r5_4']
+            # round 5 / 6: catalog record shapes (Model/Catalog.lean); live code = CatFix.live, history = CatFix.former
+            P + 'C09_catalog', P + 'C09_catalog_total', P + 'C09_integration', P + 'C09_integration_total',
+            P + 'C09_catalog_former', P + 'C09_regress_catalog_former_not_full', P + 'C09_regress_r5_1', P + 'C09_regress_r5_1b',
+            P + 'C09_regress_r5_1c', P + 'C09_regress_r5_1d', P + 'C09_regress_r5_2', P + 'C09_regress_r5_3',
+            P + 'C09_regress_r5_3b', P + 'C09_regress_r5_4', P + 'C09_regress_r5_live',
+            # round 6: per-model USING partition sizes (Model/PlanSizes.lean)
+            P + 'C09_sizes_not_consulted', P + 'C09_join_sizes', P + 'C09_split_stale_plan', P + 'C09_split_stale_witness']
 ASSUME = [
     'theorems cover QueryPlan.add_step, the step-stack / partition bookkeeping of PlanJoinTablesQuery (live variant: '
     'close_partition before a step that cannot be partitioned; pinned by the obligation pin:add_plan_step-variant-repaired), '
@@ -37,11 +39,17 @@ ASSUME = [
     '(Model/Catalog.lean: absent, None, booleans, numbers, strings, lists of strings, {}) for the keys the planner reads today '
     '(integration_name, timeseries, order_by_column, group_by_columns, window, to_predict; integration type) and three '
     'statement families (table JOIN model in either order with a WHERE on one or two columns / LIMIT, table JOIN model JOIN '
-    'table, SELECT FROM model); tie = correspondence stream `catalog`, which also decides which variant of the model '
-    '(code as it is / with fixes C09_r5_1..4) the library follows.  The documented domain assumes that integration_name, when '
-    'a string, names the project under which the query addresses the model, and that `name` keys are strings.  Keys that the '
-    'planner starts to read are found by scanning its sources at run time (catshape.scan_keys) and varied by the probe, but '
-    'are `other` keys (ignored) in the Lean model until it is extended',
+    'table, SELECT FROM model); tie = correspondence stream `catalog` against the model of the code as it is (CatFix.live), '
+    'with the obligation pin:catalog-lookups-variant-live (the model of the former code is run to tell them apart).  The '
+    'documented domain assumes that integration_name, when a string, names the project under which the query addresses the '
+    'model, and that `name` keys are strings.  Keys that the planner starts to read are found by scanning its sources at run '
+    'time (catshape.scan_keys) and varied by the probe, but are `other` keys (ignored) in the Lean model until it is extended',
+    'per-model USING options: C09_sizes_not_consulted / C09_join_sizes say that the join planner does not consult the partition '
+    'size a model asks for beyond its presence (Model/PlanSizes.lean, policy joinOpen); tie = stream `partition_sizes` (tables, '
+    'two to four models with own / global / no sizes, equal or different, tables / sub-selects in between) with the obligation '
+    'pin:partition-sizes-not-consulted; C09_split_stale_* describe a HYPOTHETICAL variant (seeded change C09_11), not live code',
+    'a QueryPlanner object that plans several statements in a row is checked by the probe only (sequence probe: every plan of '
+    'the sequence must satisfy the invariant on its own); the model plans one statement from the empty plan',
 ]
 
 
@@ -151,6 +159,7 @@ def run(chk):
     # ---- correspondence: model vs real planner on skeleton-generated join queries
     rng = common.rng_for(chk.seed, 'C09/corr')
     cases, lines, dist = [], [], {}
+    size_cases, sz_outs = [], []
     tries = 0
     while len(cases) < n_corr and tries < n_corr * 3:
         tries += 1
@@ -166,7 +175,12 @@ def run(chk):
         # theorems C09_partial / C09_plan_select / C09_join).  The variant without it ('0 …', C09_join_unrepaired) is run
         # only to pin which of the two the implementation follows on the cases where they differ.
         outs0 = common.lean_run('Plan', lines) if lines else []
-        outs1 = common.lean_run('Plan', ['1' + l[1:] for l in lines]) if lines else []
+        # (the `sz` lines of the stream partition_sizes ride along in this driver run)
+        srng = common.rng_for(chk.seed, 'C09/sizes')
+        size_cases = [plangen.sizes_case(srng) for _ in range(300 if quick else 5000)]
+        sz_lines = [l for c in size_cases for l in c['lines']]
+        outs1 = common.lean_run('Plan', ['1' + l[1:] for l in lines] + sz_lines)
+        sz_outs, outs1 = outs1[len(lines):], outs1[:len(lines)]
         ccat = plangen.probe_catalogs()
         impl = []
         for c in cases:
@@ -227,51 +241,82 @@ def run(chk):
         chk.corr_result('cte_lookup', len(cte_cases), len(bad), first, d)
     except Exception as e:
         chk.oblige('corr:cte_lookup', 'correspondence', False, 'driver failed: %s' % e)
-    # ---- correspondence: the catalog look-ups (Model/Catalog.lean) on record shapes x metadata forms x statements.
-    # The model has one flag per proposed repair (fixes/C09_r5_1..4.diff); every combination is run and the implementation
-    # must agree with ONE of them on ALL cases (the code as it is = all flags off; C09_catalog / C09_catalog_live /
-    # C09_catalog_total say what holds for which combination).
+    # ---- correspondence: the catalog look-ups (Model/Catalog.lean) on record shapes x metadata forms x statements, against
+    # the model of the code as it is (CatFix.live: theorems C09_catalog_total / C09_integration_total).  The model of the
+    # FORMER code (before e4d7787, 08911cf, d8a610a, 88dbd1a; C09_catalog_former, C09_regress_r5_*) is run only to pin the
+    # variant: on the cases that tell the two apart the implementation follows the live one.
     shape_cases = []
     try:
         rng = common.rng_for(chk.seed, 'C09/catalog')
         shape_cases = [catshape.cat_case(rng) for _ in range(600 if quick else 12000)]
-        lines, at = [], []
-        for c in shape_cases:
-            ls = catshape.cat_lines(c)
-            at.append((len(lines), ls))
-            lines += ls
+        lines = [l for c in shape_cases for l in catshape.cat_lines(c)]
         outs = common.lean_run('Catalog', lines)
+        live = [pw.canon_model_line(o) for o in outs[0::2]]
+        former = [pw.canon_model_line(o) for o in outs[1::2]]
         impl = [cat_impl_line(c) for c in shape_cases]
-        miss = {}        # (kind, flags) -> list of (case, model, impl)
-        for c, (a, ls), i in zip(shape_cases, at, impl):
-            chk.count(('catalog', c['sql'], c['rest']))
-            for j, l in enumerate(ls):
-                m = pw.canon_model_line(outs[a + j])
-                bucket = miss.setdefault((c['kind'], l.split(' ')[1]), [])
-                if m != i:
-                    bucket.append((c, m, i))
         d = {}
         diverged, first = 0, None
-        for kind in ('cat', 'int'):
-            cand = sorted((len(v), k[1]) for k, v in miss.items() if k[0] == kind)
-            if not cand:
-                continue
-            n_bad, flags = cand[0]
-            d['variant_matched/' + kind] = flags + ' (flags ts,target,ns,itype; 0 = code as it is, 1 = with fixes/C09_r5_*.diff)'
-            diverged += n_bad
-            if n_bad and first is None:
-                c, m, i = miss[(kind, flags)][0]
-                first = dict(sql=c['sql'], catalog=c['catalog'], model_input='%s %s %s' % (kind, flags, c['rest']),
-                             model=m, impl=i, variant=flags)
-        for c, i in zip(shape_cases, impl):
+        for c, m, i in zip(shape_cases, live, impl):
+            chk.count(('catalog', c['sql'], c['rest']))
+            if m != i:
+                diverged += 1
+                if first is None:
+                    first = dict(sql=c['sql'], catalog=c['catalog'], model_input='%s %s %s' % (c['kind'], catshape.LIVE, c['rest']),
+                                 model=m, impl=i, model_variant='live')
             key = 'catalog/%s/%s' % (c['shape'], ' '.join(i.split(' ')[:3]) if i.startswith('err') else 'plan')
             d[key] = d.get(key, 0) + 1
+        differ = [(c, m, f, i) for c, m, f, i in zip(shape_cases, live, former, impl) if m != f]
+        like_live = [x for x in differ if x[3] == x[1]]
+        like_former = [x for x in differ if x[3] == x[2]]
+        d['cases_where_variants_differ'] = len(differ)
+        d['of_these_impl_like_live'] = len(like_live)
+        d['of_these_impl_like_former'] = len(like_former)
         d['keys_scanned'] = json.dumps(catshape.keys()['scanned'])
         chk.corr_result('catalog', len(shape_cases), diverged, first, d)
+        chk.oblige('pin:catalog-lookups-variant-live', 'correspondence',
+                   len(differ) > 0 and len(like_live) > 0 and len(like_former) == 0,
+                   'variants differ on %d cases; implementation like live on %d, like former on %d%s' % (
+                       len(differ), len(like_live), len(like_former),
+                       '' if not like_former else '; e.g. %s' % json.dumps(dict(sql=like_former[0][0]['sql'],
+                                                                                catalog=like_former[0][0]['catalog'],
+                                                                                impl=like_former[0][3]), default=str)[:600]))
         c0 = shape_cases[0]
-        chk.samples.append(dict(sql=c0['sql'], catalog=c0['catalog'], model=pw.canon_model_line(outs[0]), stream='catalog'))
+        chk.samples.append(dict(sql=c0['sql'], catalog=c0['catalog'], model=live[0], stream='catalog'))
     except Exception as e:
         chk.oblige('corr:catalog', 'correspondence', False, 'driver failed: %s' % e)
+    # ---- correspondence: several models with per-model USING <alias>.partition_size (Model/PlanSizes.lean).  The model of the
+    # code as it is (`joinOpen`: sizes are not consulted, C09_sizes_not_consulted / C09_join_sizes) vs the real planner; the
+    # hypothetical variant that opens a new partition for another size (`splitStale`, C09_split_stale_witness) is run only to
+    # pin that the implementation does not follow it.
+    try:
+        outs = sz_outs
+        mj = [pw.canon_model_line(o) for o in outs[0::2]]
+        ms = [pw.canon_model_line(o) for o in outs[1::2]]
+        ccat = plangen.probe_catalogs()
+        impl = []
+        d = {}
+        for c in size_cases:
+            i, _ = impl_line(c['sql'], ccat[c['cat']])
+            impl.append(i)
+            chk.count(('sizes', c['sql'], c['cat']))
+            key = 'sizes/%s/%s' % (c['shape'], ' '.join(i.split(' ')[:2]) if i.startswith('err') else 'plan')
+            d[key] = d.get(key, 0) + 1
+        bad = [(c, m, i) for c, m, i in zip(size_cases, mj, impl) if m != i]
+        first = dict(sql=bad[0][0]['sql'], catalog=bad[0][0]['cat'], model_input=bad[0][0]['lines'][0], model=bad[0][1],
+                     impl=bad[0][2], model_variant='joinOpen') if bad else None
+        differ = [(c, a, b, i) for c, a, b, i in zip(size_cases, mj, ms, impl) if a != b]
+        like_split = [x for x in differ if x[3] == x[2]]
+        d['cases_where_policies_differ'] = len(differ)
+        d['of_these_impl_like_splitStale'] = len(like_split)
+        chk.corr_result('partition_sizes', len(size_cases), len(bad), first, d)
+        chk.oblige('pin:partition-sizes-not-consulted', 'correspondence',
+                   len(differ) > 0 and len(like_split) == 0 and all(x[3] == x[1] for x in differ),
+                   'policies differ on %d cases; implementation like joinOpen on %d, like splitStale on %d%s' % (
+                       len(differ), sum(1 for x in differ if x[3] == x[1]), len(like_split),
+                       '' if not like_split else '; e.g. %s' % json.dumps(dict(sql=like_split[0][0]['sql'], impl=like_split[0][3]))[:600]))
+        chk.samples.append(dict(sql=size_cases[0]['sql'], catalog=size_cases[0]['cat'], model=mj[0], stream='partition_sizes'))
+    except Exception as e:
+        chk.oblige('corr:partition_sizes', 'correspondence', False, 'driver failed: %s' % e)
     # ---- impl-level probe: invariant + exception class on every real plan of the broad stream
     rng = common.rng_for(chk.seed, 'C09/probe')
     pdist = {}
@@ -281,6 +326,7 @@ def run(chk):
         list(catshape.systematic(chk.seed if isinstance(chk.seed, int) else 0))     # (single-key edit) x (statement skeleton)
     cats.update({'#%d' % i: c['catalog'] for i, c in enumerate(shape_cases)})
     stream += [(c['sql'], '#%d' % i) for i, c in enumerate(shape_cases)]
+    stream += [(c['sql'], c['cat']) for c in size_cases]
     for sql, cname in stream:
         out, f = pw.probe(sql, cats[cname])
         chk.count(('probe', sql, cname))
@@ -298,6 +344,18 @@ def run(chk):
             f['shape_facts'] = catshape.facts(cats[cname])
             if not cname.startswith('#'):
                 f.pop('catalog', None)      # rebuilt from its name on replay; catalogs of the stream `catalog` are kept
+            chk.classify(f, kf_match)
+            chk.fail(f)
+    # ---- sequence probe: one planner object, several statements in a row; every plan must be well formed on its own
+    srng = common.rng_for(chk.seed, 'C09/sequences')
+    for sqls, cname in plangen.sequence_stream(srng, stream[:len(plangen.FIXED) + len(cases) + len(cte_cases) + 3000],
+                                               300 if quick else 8000):
+        kinds, f = pw.probe_sequence(sqls, cats[cname])
+        chk.count(('sequence', tuple(sqls), cname))
+        key = 'sequence/' + '+'.join(kinds)
+        pdist[key] = pdist.get(key, 0) + 1
+        if f:
+            f['catalog_name'] = cname
             chk.classify(f, kf_match)
             chk.fail(f)
     chk.corr.setdefault('plan_join', {}).setdefault('distribution', {}).update(pdist)
@@ -323,6 +381,9 @@ def replay(path):
         return 1
     cats = plangen.probe_catalogs()
     cat = f['catalog'] if f.get('catalog_name', '').startswith('#') else cats[f['catalog_name']]
-    _, r = pw.probe(f['sql'], cat)
+    if f.get('sqls'):
+        _, r = pw.probe_sequence(f['sqls'], cat)
+    else:
+        _, r = pw.probe(f['sql'], cat)
     print('REPRODUCED' if r else 'not reproduced', json.dumps({k: v for k, v in (r or f).items() if k != 'catalog'}, default=str)[:900])
     return 1 if r else 0
